@@ -427,6 +427,19 @@ func (grid *RegularGrid) cellOf(p Vector3f) (uint, uint) {
 }
 
 func (grid *RegularGrid) mergeQuads(existingQuad *Quad, newQuad *Quad) {
+	// The grid holds the footprint the plane is about to get before any cell is
+	// computed: that footprint, rounded in float32, can come out a hair outside
+	// the grid; clamped into a border cell now, its corner would be found in
+	// another cell once the grid has grown on that side, and the plane be taken
+	// for registered in a cell it never was put in.
+	mergedCenter := existingQuad.Center
+	mergedExtents := existingQuad.Extents
+	mergedCenter.Add(Mul(Sub(newQuad.Center, existingQuad.Center), 0.2))
+	mergedExtents.Add(Mul(Sub(newQuad.Extents, existingQuad.Extents), 0.2))
+	mergedMin := Sub(mergedCenter, mergedExtents)
+	mergedMax := Add(mergedCenter, mergedExtents)
+	grid.ExpandToFitPoint(&mergedMin)
+	grid.ExpandToFitPoint(&mergedMax)
 
 	minPoint := Sub(existingQuad.Center, existingQuad.Extents)
 	maxPoint := Add(existingQuad.Center, existingQuad.Extents)
